@@ -43,6 +43,8 @@ var vc07ClientPool = []vc07Client{
 	{Via: "sni", Prof: 3, Dev: 0, Remote: netip.MustParseAddr("203.0.113.8")},
 	{Via: "sni", Prof: 4, Dev: 0, Remote: netip.MustParseAddr("203.0.113.72"), ECS: "192.0.2.64", ECSBits: 26},
 	{Via: "cpe", Prof: 4, Dev: 0, Remote: netip.MustParseAddr("203.0.113.9")},
+	// a device with filtering switched off in a profile that filters
+	{Via: "cpe", Prof: 4, Dev: 1, Remote: netip.MustParseAddr("203.0.113.12")},
 	// a device whose address has no location at all
 	{Via: "sni", Prof: 2, Dev: 0, Remote: netip.MustParseAddr("198.51.100.201")},
 	// subnets that end inside an octet, and one that no location covers
@@ -69,8 +71,10 @@ func vc07DrawName(t *rapid.T) string {
 }
 
 type vc07Case struct {
-	Conf vc07StackConf
-	Reqs []*vc07Req
+	// Burst: every stream repeats one request many times on one shared name.
+	Burst bool
+	Conf  vc07StackConf
+	Reqs  []*vc07Req
 	// Streams lists the requests of every stream, in order.
 	Streams [][]*vc07Req
 }
@@ -84,16 +88,47 @@ func vc07DrawCase(t *rapid.T, st *vstat.Stats, maxStreams, maxPerStream int) (c 
 	// metrics and cannot be instantiated more than once per process.)
 	c.Conf.CacheType = rapid.SampledFrom([]dnssvc.CacheType{dnssvc.CacheTypeECS, dnssvc.CacheTypeECS, dnssvc.CacheTypeECS, dnssvc.CacheTypeECS, dnssvc.CacheTypeNone}).Draw(t, "cacheType")
 
+	// One case in three runs on the real filter storage (shared rule lists with
+	// result caches, per-profile custom rules) and the real profile database.
+	c.Conf.Real = rapid.IntRange(0, 2).Draw(t, "real") == 0
+	c.Burst = c.Conf.Real && maxStreams > 5 && rapid.Bool().Draw(t, "burst")
+
 	names := make([]string, rapid.IntRange(1, 4).Draw(t, "nNames"))
 	for i := range names {
-		names[i] = vc07DrawName(t)
+		if c.Conf.Real && (i == 0 || rapid.Bool().Draw(t, "mlName")) {
+			// A name that several rules of the shared list, a second list and
+			// custom rules match; with a CNAME answer the response stage matches
+			// as well.
+			kind := rapid.SampledFrom([]vdns.Kind{vdns.KA, vdns.KA, vdns.KCNAME, vdns.KAMixed}).Draw(t, "mlKind")
+			names[i] = vdns.Name(kind, 6, "ml."+rapid.SampledFrom([]string{"u", "u", "s"}).Draw(t, "mlScope")+".test.")
+		} else if c.Conf.Real && rapid.Bool().Draw(t, "cnameName") {
+			// Passes the request stage; the CNAME target of the answer is
+			// matched at the response stage (rule lists first, then custom).
+			names[i] = vdns.Name(vdns.KCNAME, 6, "ok."+rapid.SampledFrom([]string{"u", "s"}).Draw(t, "cnScope")+".test.")
+		} else {
+			names[i] = vc07DrawName(t)
+		}
 	}
 
+	if c.Burst && rapid.Bool().Draw(t, "burstOnResponseStage") {
+		names[0] = vdns.Name(vdns.KCNAME, 6, "ok.u.test.")
+	}
+
+	burstQType := rapid.SampledFrom([]uint16{dns.TypeA, dns.TypeA, dns.TypeAAAA}).Draw(t, "burstQType")
 	nStreams := rapid.IntRange(2, maxStreams).Draw(t, "nStreams")
+	if c.Burst {
+		nStreams = rapid.IntRange(4, maxStreams).Draw(t, "nBurstStreams")
+	}
+
 	n := 0
 	for s := 0; s < nStreams; s++ {
 		cl := rapid.SampledFrom(vc07ClientPool).Draw(t, "client")
 		k := rapid.IntRange(1, maxPerStream).Draw(t, "nReqs")
+		repeats := 0
+		if c.Burst {
+			k, repeats = 1, rapid.IntRange(6, 20).Draw(t, "repeats")
+		}
+
 		var stream []*vc07Req
 		for i := 0; i < k; i++ {
 			n++
@@ -156,13 +191,29 @@ func vc07DrawCase(t *rapid.T, st *vstat.Stats, maxStreams, maxPerStream int) (c 
 				}
 			}
 
-			r.N, r.Stream, r.Client = n, s, cl
+			r.N, r.Stream, r.Client, r.Real, r.CookieSeed = n, s, cl, c.Conf.Real, n
+			if c.Burst {
+				r.Name, r.QType, r.NearMissOf, r.Changed = names[0], burstQType, 0, ""
+			}
 			r.MsgID = rapid.SampledFrom([]uint16{uint16(1000 + n), uint16(1000 + n), 0, 65535, 1}).Draw(t, "msgID")
 			r.Cancel = rapid.IntRange(0, 14).Draw(t, "cancel") == 0
 			r.Yield = rapid.IntRange(0, 3).Draw(t, "yield")
+			if c.Burst {
+				r.Cancel = false
+			}
+
 			r.build()
 			stream = append(stream, r)
 			c.Reqs = append(c.Reqs, r)
+			// The same request again and again: only the request ID differs.
+			for j := 0; j < repeats; j++ {
+				n++
+				rep := *r
+				rep.N, rep.Yield = n, 0
+				rep.build()
+				stream = append(stream, &rep)
+				c.Reqs = append(c.Reqs, &rep)
+			}
 		}
 
 		c.Streams = append(c.Streams, stream)
@@ -285,7 +336,26 @@ func vc07DumpVal(b *strings.Builder, v reflect.Value) {
 
 // vc07Verdict tells what the request's own profile does with it.
 func vc07Verdict(r *vc07Req) string {
+	if d := r.Client.device(); d != nil && d.NoFilter {
+		return "pass"
+	}
+
+	if r.Real {
+		// The real rule lists decide; the harness has no model of them.
+		if vc07Profiles[r.Client.Prof].Filtering {
+			return "real"
+		}
+
+		return "pass"
+	}
+
 	return vc07Decide(r.Client.Prof, r.Name, r.QType)
+}
+
+// vc07Signature identifies everything of a request that its outcome alone on
+// a fresh stack can depend on.
+func vc07Signature(r *vc07Req) string {
+	return fmt.Sprintf("%s|%q|%d|%d|%t%t%t%t%t%t|%d|%t|%d|%t", r.Client, r.Name, r.QType, r.MsgID, r.Debug, r.DO, r.AD, r.CD, r.RD, r.EDNS, r.Z, r.Cookie, r.CookieSeed, r.Cancel)
 }
 
 func vc07EventsString(evs []vc07Event) string {
@@ -321,6 +391,16 @@ func vc07Compare(r *vc07Req, got, alone vc07Outcome) (problems []string) {
 			// Records built by the server for this request carry the profile's
 			// TTL exactly; records that may come from the cache may only be
 			// older.
+			if verdict == "real" {
+				// Blocked by a rule (no rewrites are configured): the records are
+				// the server's own.
+				for _, e := range alone.Events {
+					if e.Kind == "rulestat" && strings.Contains(e.Data, "||") && !strings.Contains(e.Data, "@@") {
+						verdict = "blocked"
+					}
+				}
+			}
+
 			exact := verdict == "blocked" || verdict == "resp-blocked" || verdict == "rewritten" || verdict == "safe-browsing" || (verdict == "cname" && i == 0)
 			if gTTL[i] > aTTL[i] || (exact && gTTL[i] != aTTL[i]) {
 				bad("TTL of record %d is %d, alone %d (verdict %s)", i, gTTL[i], aTTL[i], verdict)
@@ -378,6 +458,8 @@ func vc07CheckDebug(r *vc07Req, m *dns.Msg) (problems []string) {
 	// doc/debugdns.md: the result type, with the prefix of the stage that
 	// decided.
 	switch v := vc07Verdict(r); v {
+	case "real":
+		// decided by the real rule lists
 	case "pass":
 		want["resp.res-type"] = "normal"
 	case "blocked":
@@ -418,7 +500,7 @@ func vc07CheckDebug(r *vc07Req, m *dns.Msg) (problems []string) {
 	}
 
 	for k, v := range vals {
-		if strings.HasSuffix(k, "rule") && strings.Contains(v, "$client=") && !strings.HasSuffix(v, "$client="+p.ID) {
+		if strings.HasSuffix(k, "rule") && !vc07RuleMayApply(r, v) {
 			problems = append(problems, fmt.Sprintf("debug record %s names rule %q of another profile", k, v))
 		}
 	}
@@ -507,6 +589,42 @@ func vc07CheckShape(r *vc07Req, m *dns.Msg) (problems []string) {
 	return problems
 }
 
+// vc07RuleMayApply reports whether text, which names a rule (and possibly a
+// list), can be the asker's: rules carry the profile or the device they were
+// written for, lists belong to some profiles only.
+func vc07RuleMayApply(r *vc07Req, text string) bool {
+	p := vc07Profiles[r.Client.Prof]
+	if !r.Real {
+		i := strings.Index(text, "$client=")
+
+		return i < 0 || strings.HasSuffix(text, "$client="+p.ID) || strings.Contains(text, "$client="+p.ID+" ")
+	}
+
+	if i := strings.Index(text, "client=name-"); i >= 0 {
+		d := r.Client.device()
+		if d == nil || !strings.HasPrefix(text[i+len("client="):], "name-"+d.ID) {
+			return false
+		}
+	}
+
+	for _, id := range []string{"vc07_l1", "vc07_l2", "vc07_l3"} {
+		if !strings.Contains(text, id) {
+			continue
+		}
+
+		mine := false
+		for _, own := range vc07RealProfileLists[r.Client.Prof] {
+			mine = mine || string(own) == id
+		}
+
+		if !mine {
+			return false
+		}
+	}
+
+	return true
+}
+
 // vc07CheckEvents checks what the request left in the recorders against the
 // request itself.
 func vc07CheckEvents(r *vc07Req, evs []vc07Event) (problems []string) {
@@ -540,8 +658,10 @@ func vc07CheckEvents(r *vc07Req, evs []vc07Event) (problems []string) {
 				problems = append(problems, fmt.Sprintf("query log entry %q does not describe the request (want %q, %q, %q)", e.Data, want, want2, want3))
 			}
 
-			if i := strings.Index(e.Data, "$client="); i >= 0 && !strings.Contains(e.Data, "$client="+p.ID+" ") && !strings.HasSuffix(e.Data, "$client="+p.ID) {
-				problems = append(problems, "query log entry names a rule of another profile: "+e.Data)
+			for _, f := range strings.Fields(e.Data) {
+				if (strings.HasPrefix(f, "req=") || strings.HasPrefix(f, "resp=")) && !vc07RuleMayApply(r, f) {
+					problems = append(problems, "query log entry names a rule of another profile or device: "+e.Data)
+				}
 			}
 		case "bill":
 			dev := r.Client.device()
@@ -549,8 +669,8 @@ func vc07CheckEvents(r *vc07Req, evs []vc07Event) (problems []string) {
 				problems = append(problems, "billing record does not belong to the client's device: "+e.Data)
 			}
 		case "rulestat":
-			if i := strings.Index(e.Data, "$client="); i >= 0 && !strings.HasSuffix(e.Data, "$client="+p.ID) {
-				problems = append(problems, "rule statistics name a rule of another profile: "+e.Data)
+			if !vc07RuleMayApply(r, e.Data) {
+				problems = append(problems, "rule statistics name a rule or a list of another profile or device: "+e.Data)
 			}
 		}
 	}
@@ -571,9 +691,18 @@ func vc07CheckEvents(r *vc07Req, evs []vc07Event) (problems []string) {
 func vc07Alone(c *vc07Case) (outs map[int]vc07Outcome, fails []string) {
 	outs = map[int]vc07Outcome{}
 	exp := c.expect()
+	memo := map[string]vc07Outcome{}
 	for _, r := range c.Reqs {
+		sig := vc07Signature(r)
+		if out, ok := memo[sig]; ok {
+			outs[r.N] = out
+
+			continue
+		}
+
 		st := vc07NewStack(c.Conf, exp)
 		outs[r.N] = st.serve(r)
+		memo[sig] = outs[r.N]
 		fails = append(fails, st.fails...)
 	}
 
@@ -581,10 +710,11 @@ func vc07Alone(c *vc07Case) (outs map[int]vc07Outcome, fails []string) {
 }
 
 // vc07Classify returns the classes and the non-triviality of a case.
-func vc07Classify(c *vc07Case, upstreamCalls int64) (classes []string, nontrivial bool) {
+func vc07Classify(c *vc07Case, upstreamCalls int64, alone map[int]vc07Outcome) (classes []string, nontrivial bool) {
 	set := map[string]bool{}
 	profsByName := map[string]map[int]bool{}
 	verdictsByName := map[string]map[string]bool{}
+	mlAskers, mlCustom := map[string]map[string]bool{}, map[string]bool{}
 	for _, r := range c.Reqs {
 		key := fmt.Sprintf("%s|%d", strings.ToLower(r.Name), r.QType)
 		if profsByName[key] == nil {
@@ -617,6 +747,49 @@ func vc07Classify(c *vc07Case, upstreamCalls int64) (classes []string, nontrivia
 			set["cancelled-context"] = true
 		}
 
+		if d := r.Client.device(); d != nil && d.NoFilter {
+			set["device-filtering-off"] = true
+		}
+
+		if r.Real {
+			set["real-filters-and-profiledb"] = true
+			for _, e := range alone[r.N].Events {
+				if e.Kind != "rulestat" || !strings.Contains(e.Data, " ") || strings.HasSuffix(e.Data, " ") {
+					continue
+				}
+
+				switch {
+				case strings.Contains(e.Data, "client="):
+					set["real-rule-client"] = true
+				case strings.Contains(e.Data, "@@"):
+					set["real-rule-exception"] = true
+				case strings.Contains(e.Data, "important"):
+					set["real-rule-important"] = true
+				default:
+					set["real-rule-block"] = true
+				}
+
+				if strings.Contains(e.Data, "target") {
+					set["real-rule-response-stage"] = true
+				}
+			}
+			kind := vdns.Kind(-1)
+			if vc07InScheme(r.Name) {
+				kind, _ = vdns.KindOf(r.Name)
+			}
+
+			if cat, _ := vc07CatOf(r.Name); cat == "ml" || (cat == "ok" && kind == vdns.KCNAME && r.QType != dns.TypeHTTPS) {
+				set["real-multi-rule-name"] = true
+				mk := fmt.Sprintf("%s|%d", strings.ToLower(r.Name), r.QType)
+				if mlAskers[mk] == nil {
+					mlAskers[mk] = map[string]bool{}
+				}
+
+				mlAskers[mk][fmt.Sprintf("%d/%d", r.Client.Prof, r.Client.Dev)] = true
+				mlCustom[mk] = mlCustom[mk] || len(vc07RealProfileLists[r.Client.Prof]) > 1
+			}
+		}
+
 		if r.Client.ECS2 != "" {
 			set["two-ecs-options"] = true
 		}
@@ -646,6 +819,17 @@ func vc07Classify(c *vc07Case, upstreamCalls int64) (classes []string, nontrivia
 
 	if upstreamCalls < int64(len(c.Reqs)) {
 		set["cache-hits"] = true
+	}
+
+	// A name matched by several rules of the shared cached list, by a second
+	// list and by custom rules, asked by clients whose additional rules differ.
+	for mk, askers := range mlAskers {
+		if len(askers) >= 2 && mlCustom[mk] {
+			set["same-name-multi-rule-list-plus-custom"] = true
+			if c.Burst {
+				set["same-name-multi-rule-list-plus-custom-burst"] = true
+			}
+		}
 	}
 
 	for k := range set {
@@ -732,7 +916,8 @@ func TestVerifC07StackSequential(t *testing.T) {
 		"rapid: 2..5 streams of 1..4 requests from a pool of 13 clients (anonymous, DoT device by server name, plain-DNS device by CPE-ID option or linked address; 4 profiles with different policies, blocking modes, TTLs and logging flags) over 1..4 shared names (7 filtering categories x answer kinds x ECS-scoped or not), qtypes A/AAAA/HTTPS/TXT, debug (CHAOS) queries, DO/AD/CD/RD/EDNS/Z/cookie/ECS variations; served interleaved in a drawn order by one goroutine on one stack from dnssvc.NewHandlers; every response and recorder entry compared with the same request alone on a fresh stack; non-trivial = two streams of different profiles ask the same (name, type); distinct by the request set",
 		"overlap-different-profiles", "same-name-different-verdicts", "cache-hits", "debug-query", "verdict-blocked", "verdict-rewritten", "verdict-cname", "verdict-resp-blocked", "via-sni", "via-cpe", "via-linked", "via-anon", "ecs-client", "https-question",
 		"near-miss", "near-miss-do", "near-miss-case", "near-miss-qtype", "near-miss-nothing", "combined-categories", "upstream-error", "cancelled-context", "two-ecs-options", "minimal-name", "msg-id-zero",
-		"adjacent-anon-after-profile", "adjacent-other-profile", "adjacent-unlogged-after-logged", "adjacent-noiplog-after-iplog", "adjacent-noedns-after-edns", "adjacent-plain-after-dot", "adjacent-after-failed-request")
+		"adjacent-anon-after-profile", "adjacent-other-profile", "adjacent-unlogged-after-logged", "adjacent-noiplog-after-iplog", "adjacent-noedns-after-edns", "adjacent-plain-after-dot", "adjacent-after-failed-request",
+		"real-filters-and-profiledb", "same-name-multi-rule-list-plus-custom", "real-rule-block", "real-rule-exception", "real-rule-important", "real-rule-client", "real-rule-response-stage", "device-filtering-off")
 	st.Finish(t)
 
 	rapid.Check(t, func(t *rapid.T) {
@@ -766,7 +951,7 @@ func TestVerifC07StackSequential(t *testing.T) {
 		}
 
 		problems = append(problems, shared.fails...)
-		classes, nt := vc07Classify(c, shared.up.calls.Load())
+		classes, nt := vc07Classify(c, shared.up.calls.Load(), alone)
 		classes = append(classes, vc07Adjacent(order)...)
 		key := ""
 		if nt {
@@ -792,7 +977,8 @@ func TestVerifC07StackSequential(t *testing.T) {
 func TestVerifC07StackConcurrent(t *testing.T) {
 	st := vstat.New("C07", "stack.concurrent",
 		"the same request sets, 2..8 streams of 1..5 requests, every stream in its own goroutine on one stack (start together, drawn scheduler yields before each request), two repetitions on fresh stacks; responses and recorder entries compared with the same request alone on a fresh stack; under the race detector when built with -race; non-trivial = two streams of different profiles ask the same (name, type)",
-		"overlap-different-profiles", "same-name-different-verdicts", "cache-hits", "debug-query", "verdict-blocked", "verdict-cname", "near-miss", "combined-categories", "upstream-error", "cancelled-context")
+		"overlap-different-profiles", "same-name-different-verdicts", "cache-hits", "debug-query", "verdict-blocked", "verdict-cname", "near-miss", "combined-categories", "upstream-error", "cancelled-context",
+		"same-name-multi-rule-list-plus-custom", "same-name-multi-rule-list-plus-custom-burst", "real-rule-client", "real-rule-response-stage")
 	st.Finish(t)
 
 	reps := vstat.Scale(2, 3)
@@ -839,7 +1025,7 @@ func TestVerifC07StackConcurrent(t *testing.T) {
 			calls = shared.up.calls.Load()
 		}
 
-		classes, nt := vc07Classify(c, calls)
+		classes, nt := vc07Classify(c, calls, alone)
 		key := ""
 		if nt {
 			key = c.String()
